@@ -19,7 +19,7 @@ import tempfile
 from concurrent.futures import ThreadPoolExecutor
 
 HERE = os.path.dirname(os.path.dirname(os.path.abspath(__file__)))
-SEGMENTS = {"C03": 600, "C11": 320, "C14": 128, "C17": 600, "C18": 1000, "C19": 640, "C20": 104}
+SEGMENTS = {"C03": 500, "C11": 280, "C14": 112, "C17": 500, "C18": 1000, "C19": 640, "C20": 80}
 
 
 def run_one(name, seed, workers):
@@ -63,6 +63,8 @@ def main():
         for name, prop, verdict, info in ex.map(lambda t: run_one(t[1], a.seed * 1000 + t[0], workers), list(enumerate(names))):
             print(f"{verdict:8s} {name:60s} {info[:150]}", flush=True)
             out[name] = {"property": prop, "verdict": verdict, "info": info}
+            with open(os.path.join(HERE, "seeded", "regression_last.json"), "w") as f:   # incremental: a long run may be cut short
+                json.dump(out, f, indent=1, sort_keys=True)
     with open(os.path.join(HERE, "seeded", "regression_last.json"), "w") as f:
         json.dump(out, f, indent=1, sort_keys=True)
     n = {v: sum(1 for x in out.values() if x["verdict"] == v) for v in sorted({x["verdict"] for x in out.values()})}
